@@ -115,13 +115,16 @@ def execute(scn):
                     lossy = True
     unchanged = False
     for a in P['order']:
-        la = proj.label_of(P, a, i)
-        if la in sts[i]['apps'] and la in sts[n]['apps'] and spec.canon(
-                spec.normalised_models(sts[i]['apps'][la]['models'])) == \
-                spec.canon(spec.normalised_models(
-                    sts[n]['apps'][la]['models'])) and \
-                history.mutations_between(P, i, n, app=a):
-            unchanged = True
+        for j in range(i, n):
+            for k2 in range(j + 1, n + 1):
+                la, lb = proj.label_of(P, a, j), proj.label_of(P, a, k2)
+                if la in sts[j]['apps'] and lb in sts[k2]['apps'] and \
+                        spec.canon(spec.normalised_models(
+                            sts[j]['apps'][la]['models'])) == spec.canon(
+                        spec.normalised_models(
+                            sts[k2]['apps'][lb]['models'])) and \
+                        history.mutations_between(P, j, k2, app=a):
+                    unchanged = True
     from evosim.props import c02
     merged = c02._merged_initials({'project': {'apps': {'va': {'steps': [
         {'evos': [{'mutations': [m for m in muts
